@@ -50,6 +50,10 @@ class Prop:
     def in_domain(self, d, kind, q):
         return True
 
+    def after_run(self, cases, res, rep, stats, tier, seed):
+        """extra legs of a check that need more than the in-process harness (default: none)"""
+        return
+
     def evaluate_case(self, case, answers, rep, stats):
         for did, d, reqs in case["blocks"]:
             r = answers[did]
@@ -469,7 +473,8 @@ class C11(Prop):
     module = "TrVerif.Props.C11"
     streams = [("sparse", 2), ("dense", 2), ("overlap", 1), ("parallel", 1), ("xfer", 2), ("hours", 1)]
     rule = ("(dataset, restricting scenario) vs (copy with the excluded trips deleted, all-inclusive scenario), same route / accessibility "
-            "requests; non-trivial = the scenario excludes at least one trip and keeps at least one, and the answer is a success; distinct (dataset, request)")
+            "requests; non-trivial = the scenario excludes at least one trip and keeps at least one, and the answer is a success; distinct (dataset, request); "
+            "loader leg: 72 (thorough 600) cases, those with non-empty lists in earlier scenarios first, also go through cache files and the real server binary, scenario-restricted HTTP answer vs in-process deletion answer")
 
     def plan_case(self, rng, did):
         d = gen.gen_dataset(rng, self.pick_stream(rng))
@@ -484,10 +489,14 @@ class C11(Prop):
                 s["exceptLines" if rng.random() < .5 else "onlyLines"] = rng.sample(range(nl), rng.randint(2, nl - 1))
             d["scenarios"].append(s)
         si = rng.randrange(1, len(d["scenarios"]))
+        # same conventions as the C16 run, so that the first cases can also go through the cache files and the real loaders
+        d["acc"] = sorted(d["acc"]); d["egr"] = sorted(d["egr"])
         d2 = delete_excluded(d, si)
         reqs, reqs2 = [], []
         for _ in range(4):
             q = gen.gen_query(rng, d); q["scenario"] = si
+            for k_ in ("max_access_travel_time", "max_egress_travel_time"):
+                if k_ in q and int(q[k_]) <= 0: q[k_] = 50000
             kind = rng.choice(["route", "accessibility"])
             q2 = dict(q); q2["scenario"] = 0
             reqs.append((kind, q)); reqs2.append((kind, q2))
@@ -508,6 +517,48 @@ class C11(Prop):
                 stats["direct-fail"] += 1
                 rep.direct.append(("scenario-vs-deletion", "scenario-restricted answer %s differs from the answer on the data with excluded trips deleted %s" % (objective(kind, a), objective(kind, b)),
                                    block_text(da, d, [(kind, q)]) + block_text(db, d2, [reqs2[i]])))
+
+    def after_run(self, cases, res, rep, stats, tier, seed):
+        """loader leg (the scenario lists reach the calculation through scenarios_cache_fetcher.cpp): the first cases are written as
+        Cap'n Proto cache directories, served by the real binary, and the scenario-restricted HTTP answer is compared with the
+        in-process answer on the data with the excluded trips deleted"""
+        from . import http_checks as HC
+        from concurrent.futures import ThreadPoolExecutor
+        server = core.harness_phase(rep, "server", "asan")
+        cachegen = core.harness_phase(rep, "cachegen", "plain")
+        if not server or not cachegen: return
+        n = 72 if tier != "thorough" else 600
+        # cases in which a scenario listed BEFORE the queried one has a non-empty list come first (state carried over between
+        # the scenarios of one file shows only there)
+        def rank(c):
+            d, si = c["blocks"][0][1], c["si"]
+            earlier = sum(1 for sc in d["scenarios"][:si] for k, v in sc.items() if k != "services" and v)
+            return -min(earlier, 3)
+        picked = []
+        for c in sorted(cases, key=rank):
+            (da, d, reqs), (db, d2, reqs2) = c["blocks"]
+            if HC.c16_wellformed(d) or len(d["scenarios"]) < 2: continue
+            picked.append(c)
+            if len(picked) >= n: break
+        with ThreadPoolExecutor(max_workers=8) as ex:
+            served = list(ex.map(lambda c: HC.c16_serve(dict(did=c["blocks"][0][0], d=c["blocks"][0][1], reqs=c["blocks"][0][2]), server, cachegen), picked))
+        for c, out in zip(picked, served):
+            (da, d, reqs), (db, d2, reqs2) = c["blocks"]
+            rb = res[db]
+            if out["startup"] or rb["impl_fail"]:
+                stats["loader-leg not judged"] += 1; continue
+            for i, (kind, q) in enumerate(reqs):
+                if i >= len(out["answers"]) or out["answers"][i]["status"] != 200: continue
+                txt, j, err = HC.http_canon(kind, out["answers"][i]["body"])
+                if txt is None: continue
+                a = canon.parse_answer(txt)
+                b = canon.parse_answer(rb["impl"][i]) if rb["impl"][i] else None
+                rep.evaluations += 1; stats["loader-leg comparisons"] += 1
+                if objective(kind, a) != objective(kind, b):
+                    stats["direct-fail"] += 1
+                    rep.direct.append(("scenario-vs-deletion-through-loader", "answer of the server on the cache files under the restricting scenario %s differs from the answer on the data with "
+                                       "the excluded trips deleted %s (the scenario lists go through the cache loader)" % (objective(kind, a), objective(kind, b)),
+                                       block_text(da, d, [(kind, q)]) + block_text(db, d2, [reqs2[i]])))
 
     def nontrivial(self, d, kind, q, a):
         sc = d["scenarios"][int(q["scenario"])]
@@ -573,6 +624,11 @@ class C12(Prop):
         lo, hi = min(ts), max(ts)
         cands = [-lo, -lo + 1, 3600 - lo % 3600, -(lo % 3600), -(lo % 3600) - 1, 86400 - lo, 86400 - hi, 115199 - hi - 2000, 115199 - hi,
                  rng.randint(-3600, 3600), rng.randint(0, 100000), 3600 * rng.randint(-3, 27), 1, -1, 59]
+        # offsets that put a departure from the origin exactly on 0:00:00: first boarding - access walk - minimum waiting = 0
+        firsts = sorted(set(t[4][0] for t in d["trips"] if t[4]))[:3]
+        zero_cands = [-(f - w - mw) for f in firsts for (_, w, _) in d["acc"] for mw in (0, 60, 180)]
+        if zero_cands and rng.random() < 0.35:
+            cands = zero_cands + [c + e for c in zero_cands[:3] for e in (1, -1)]
         delta = rng.choice(cands)
         if not (0 <= lo + delta and hi + delta < 32 * 3600):
             delta = max(-lo, min(delta, 32 * 3600 - 1 - hi))
@@ -838,6 +894,11 @@ def run(pid, tier, seed, replay=None, theorems=None, module=None):
             for did, d, reqs in c["blocks"]:
                 for i, (k, q) in enumerate(reqs):
                     print("replay %s #%d\n  impl : %s\n  model: %s" % (did, i, res[did]["impl"][i], res[did]["model"][i]))
+    if not replay:
+        try:
+            P.after_run(cases, res, rep, stats, tier, seed)
+        except Exception as e:
+            rep.obligation("extra-leg(%s)" % pid, False, "the extra leg of the check failed to run: %r" % (e,))
     rep.cov["input_distribution"] = dict(stats)
     rep.cov["streams"] = dict(P.streams)
     rep.obligation("correspondence:projection(%s)" % pid, not rep.corr, "%d disagreement(s)" % len(rep.corr))
